@@ -43,6 +43,22 @@ def cases(draw, tier="quick"):
     return c
 
 
+@st.composite
+def long_cases(draw, tier="quick"):
+    """Episodes of 20-50 timesteps over 4-8 contracts, delays up to 8 steps, up to 60 extra quotes around the latency bound."""
+    c = draw(E.episode_cases(tier, min_points=20, max_points=50, min_contracts=4, max_contracts=8, max_extras=60, max_delay=8,
+                             leverage=1.5, boundary_extras=True, distinct_actions=True, with_pings=False, rewards=[["simple"]],
+                             action_step=0.008))
+    c["second_episode"] = draw(st.sampled_from([False, False, True]))
+    return c
+
+
+def run_long(case):
+    res = run(case)
+    res.tag("long")
+    return res
+
+
 def run(case):
     res = Result()
     stats = O.replay(case, res, {"fifo", "pricing"}, episodes=2 if case.get("second_episode") else 1)
@@ -124,6 +140,7 @@ def run_xy(case):
 
 PARTS = [
     Part("episodes", strategy=lambda tier: cases(tier), run=run, quick=2500, thorough=150000),
+    Part("long", strategy=lambda tier: long_cases(tier), run=run_long, quick=300, thorough=20000),
     Part("xy-delay", strategy=lambda tier: xy_cases(tier), run=run_xy, quick=300, thorough=8000),
 ]
 RULE = RULE + (" xy-delay: TradingEnvXY configurations (xylab) with steps_delay in {0,1,2,3} and pairwise distinct weight vectors: execution k must carry "
